@@ -479,8 +479,8 @@ def run(tier: str, seed: int, replay: str | None = None) -> int:
         th.join()
         phases["stream_total"] = round(time.time() - t1, 1)
         t3 = time.time()
+        judge_logic(chk, lines, tags, results, sd)      # first: a failing input of the modelled logic makes the better replay
         _judge_stream_all(chk, stream_cases, results, baselines)
-        judge_logic(chk, lines, tags, results, sd)
         phases["coq_eval"] = round(time.time() - t3, 1)
         phases["stream_cpu_s"] = round(sum((r.get("cpu") or 0) for r in results.values()), 1)
         chk.extra_cov["phase_seconds"] = phases
